@@ -32,7 +32,7 @@ def shards(tier, seed):
 def requirements(tier):
     return {"backward_default_vs_explicit": 300, "mtl_default_vs_explicit": 200, "overlap_rejection_checked": 40,
             "w_leaf_excluded_from_default": 100, "w_non_grad_leaf": 100, "w_detached_subgraph": 30, "w_multi_output": 100,
-            "w_around_without_overlap": 10, "w_feature_is_multi_output_sibling": 5, "w_deep_chain": 10, "w_diamond": 100,
+            "w_around_without_overlap": 10, "w_feature_is_multi_output_sibling": 100, "w_deep_chain": 10, "w_diamond": 100,
             "w_around_through_trunk_value": 20}
 
 
@@ -106,9 +106,63 @@ def compare_all(leaves1, leaves2, tol, ctx, label):
     return None
 
 
+def gen_sibling_program(rng, dtype):
+    """A feature that is ONE output of a multi-output node (unbind / split) while a loss also uses ANOTHER output of the same
+    node, in both operand orders and with branches of different depths (the traversal may meet either edge first)."""
+    k = int(rng.integers(2, 4))
+    shared = [{"shape": [k, int(rng.integers(1, 3))], "rg": True}]
+    trunk, cur = [], 0
+    for _ in range(int(rng.integers(0, 3))):
+        trunk.append({"op": ["sin", "tanh", "mulc", "addc"][int(rng.integers(4))], "args": [cur], "cseed": int(rng.integers(1 << 30))})
+        cur = len(trunk)
+    trunk.append({"op": "unbind" if rng.random() < 0.6 or k != 2 else "split", "args": [cur]})
+    tup = len(trunk)
+    n_out = k if trunk[-1]["op"] == "unbind" else 2
+    picks = []
+    for j in range(n_out):
+        trunk.append({"op": "pick", "args": [tup], "i": j})
+        picks.append(len(trunk))
+    fi = int(rng.integers(n_out))
+    si = int(rng.choice([j for j in range(n_out) if j != fi]))
+    pool = [{"shape": [], "rg": True}, {"shape": [2], "rg": bool(rng.random() < 0.8)}]
+    heads = []
+    for h in range(int(rng.integers(1, 3))):
+        use_sibling = h == 0 or rng.random() < 0.5
+        base = 1 + 1 + (1 if use_sibling else 0)  # feature, one pool leaf, sibling value
+        nodes, deps = [], []
+        def chain(start, depth):
+            c = start
+            for _ in range(depth):
+                nodes.append({"op": ["sin", "tanh", "square", "neg", "sigmoid"][int(rng.integers(5))], "args": [c]})
+                c = base + len(nodes) - 1
+            nodes.append({"op": "sumall", "args": [c]})
+            return base + len(nodes) - 1
+        a = chain(0, int(rng.integers(0, 4)))
+        terms = [a]
+        if use_sibling:
+            terms.append(chain(2, int(rng.integers(0, 4))))
+        nodes.append({"op": "sumall", "args": [1]})
+        terms.append(base + len(nodes) - 1)
+        order = list(rng.permutation(len(terms)))
+        acc = terms[order[0]]
+        for t in order[1:]:
+            nodes.append({"op": "add", "args": [acc, terms[t]]})
+            acc = base + len(nodes) - 1
+        dep = [["f", 0], ["p", h % 2]] if pool[h % 2]["rg"] else [["f", 0]]
+        if use_sibling:
+            dep.append(["s", 0])
+        heads.append({"features": [0], "leaves": [h % 2], "around": [], "around_values": [picks[si]] if use_sibling else [], "nodes": nodes, "loss": int(acc),
+                      "deps": sorted(dep)})
+    return {"dtype": dtype, "vseed": int(rng.integers(1 << 30)), "shared": shared, "trunk_nodes": trunk, "features": [picks[fi]],
+            "feature_deps": [[["s", 0]]], "pool": pool, "heads": heads}
+
+
 def gen_mtl(rng, i):
     dtype = "float32" if rng.random() < 0.1 else "float64"
-    desc = P.gen_mtl_program(rng, dtype, allow_around=bool(rng.random() < 0.5), allow_around_values=bool(rng.random() < 0.6))
+    if i % 5 == 0:
+        desc = gen_sibling_program(rng, dtype)
+    else:
+        desc = P.gen_mtl_program(rng, dtype, allow_around=bool(rng.random() < 0.5), allow_around_values=bool(rng.random() < 0.6))
     t = len(desc["heads"])
     srg = [i for i, l in enumerate(desc["shared"]) if l["rg"]]
     prg = [i for i, l in enumerate(desc["pool"]) if l["rg"]]
